@@ -42,6 +42,8 @@ SUBS = {"": "_", "TEXT": "TEXT", "ERROR": "ERROR", "LOGICAL": "LOGICAL", "NUMBER
 
 DQ_OK = re.compile(r'"(?:[^"]|"")*"', re.S)
 SQ_OK = re.compile(r"'(?:[^']|'')*'(?:\s*:\s*'(?:[^']|'')*')*", re.S)
+# every quote character of the token lies in a complete quoted name inside the token (e.g. Table 1::'a-b':'c')
+SEG_OK = re.compile(r"""(?:[^"']|'(?:[^']|'')*')*""", re.S)
 
 ALPHA = list("Ab10E. \n+-*/^&=<>%×÷≥≤≠(){},;:\"'#$!")
 
@@ -59,7 +61,7 @@ def tok(Tokenizer, TokenizerError, s: str, ctx: Ctx | None = None) -> str:
         for t in items:
             v = t.value
             if '"' in v or "'" in v:
-                ok = (v[0] == '"' and DQ_OK.fullmatch(v)) or (v[0] == "'" and SQ_OK.fullmatch(v))
+                ok = (v[0] == '"' and DQ_OK.fullmatch(v)) or SEG_OK.fullmatch(v)
                 if not ok:
                     ctx.violation("tokenizer-quote-split", f"Tokenizer({s!r}) token {v!r} is not one complete literal", {"text": s})
     return ("ok " + " ".join(f"{enc_text(t.value)}/{TYPES[t.type]}/{SUBS[t.subtype]}" for t in items)).rstrip() if items else "ok "
@@ -106,6 +108,49 @@ def fixture_formulas(limit_docs):
         except Exception:  # noqa: BLE001  unreadable fixture (encrypted, unsupported) — not this property's business
             continue
     return sorted(forms), ndocs
+
+
+def rendered_texts(ctx: Ctx):
+    """Formula / reference texts produced by the real reader from C08's and C09's generated expressions."""
+    from numbers_parser.generated.functionmap import FUNCTION_MAP
+
+    from checks import c08, c09
+    rng = ctx.rng
+    texts = []
+    real = c08.Real()
+    fids = sorted(FUNCTION_MAP)
+    for _ in range(1500 if ctx.quick else 50000):
+        t = c08.gen_tree(rng, rng.randrange(1, 5), fids)
+        nodes, words = [], []
+        try:
+            c08.compile_tree(real, t, nodes, words)
+            texts.append(("C08", real.render(nodes, *c08.HOST)))
+        except Exception:  # noqa: BLE001  rendering failures are C08's business
+            continue
+    # one fixed configuration with an apostrophe in header names (recorded finding), independent of the seed
+    import random as _random
+    saved_pool = list(c09.LABEL_POOL)
+    try:
+        c09.LABEL_POOL[:] = ["Bob's", "alpha", "a-b"]
+        frng = _random.Random(20260929)
+        cfg = c09.Config(frng)
+        for _ in range(200):
+            spec, exp = c09.gen_ref(frng, cfg)
+            try:
+                texts.append(("C09", c09.real_text(cfg, spec, exp)))
+            except Exception:  # noqa: BLE001
+                continue
+    finally:
+        c09.LABEL_POOL[:] = saved_pool
+    for _ in range(6 if ctx.quick else 60):
+        cfg = c09.Config(rng)
+        for _ in range(150 if ctx.quick else 600):
+            spec, exp = c09.gen_ref(rng, cfg)
+            try:
+                texts.append(("C09", c09.real_text(cfg, spec, exp)))
+            except Exception:  # noqa: BLE001  C09's business
+                continue
+    return texts
 
 
 def run(ctx: Ctx):
@@ -183,6 +228,20 @@ def run(ctx: Ctx):
             pass
     batch(f"formulas read from {ndocs} fixture documents", forms)
     ctx.extra["fixture_formulas"] = {"documents": ndocs, "distinct_formulas": len(forms), "rejected": rejected}
+
+    rend = rendered_texts(ctx)
+    rej = 0
+    for src, f in rend:
+        try:
+            Tokenizer(f)
+        except TokenizerError:
+            rej += 1
+            kind = "apostrophe-in-name" if "'''" in f else ("quoted-name-after-prefix-or-colon" if re.search(r":\s*\$?'", f) else "other")
+            ctx.violation(f"reader-formula-rejected:{src}:{kind}", f"text rendered by the reader ({src} generator) is rejected by the tokenizer: {f!r}", {"text": f})
+        except Exception:  # noqa: BLE001  reported by tok() below
+            pass
+    batch("formula / reference texts rendered by the reader from C08 and C09 generated expressions", sorted({f for _, f in rend}))
+    ctx.extra["rendered_texts"] = {"count": len(rend), "rejected": rej}
 
 
 def replay(data):
